@@ -14,6 +14,8 @@ for sd in "${seeds[@]}"; do
     C09-3) checks="C10";;
     C07-3) checks="C07 C11";;
     C02-3) checks="C02 C03";;
+    C07-4) checks="C02";;
+    C11-4) checks="C11 C05";;
   esac
   for c in $checks; do
     out=$(tools/mutate_run.sh $c seeded/$sd/patch.diff 2>&1)
